@@ -37,7 +37,7 @@ ASSUMPTIONS = ["a manager constructor that raises counts as 'does not list the b
 NAMES = ["sub-01_task-go_events.tsv", "sub-01_task-stop_events.tsv", "sub_01_task_go_events.tsv",
          "sub_02_task_stop_run_1_events.tsv", "events.tsv", ".hidden_task_go_events.tsv", "sub-02_task-go_run-1_events.tsv",
          "task_gonogo_events.tsv"]
-DIRS = ["", "sub-01", "sub-01/eeg", "sub-02/ses-1/eeg", ".staging"]
+DIRS = ["", "sub-01", "sub-01/eeg", "sub-02/ses-1/eeg", ".staging", "Sub-03/EEG", "sub-01/EEG"]
 TASKS = ["go", "stop", "gonogo", "none"]
 CRASH_COUNT = {"points": 0}
 
@@ -296,9 +296,12 @@ class _Crash(BaseException):
     pass
 
 
-def run_child(root, sel, name, target):
+def run_child(root, sel, name, target, retry=False):
     """Fork; in the child run create_backup with injection point number `target`; return the child's exit status:
-    9 = crashed at the target, 0 = finished without reaching it."""
+    9 = crashed at the target, 0 = finished without reaching it.
+    retry=True: the fault is an OSError raised inside a copy (after part of the file was written) instead of a kill;
+    the same manager object then calls create_backup again, undisturbed. 7 = fault happened and the retry returned,
+    8 = fault happened and the retry raised."""
     pid = os.fork()
     if pid:
         _, status = os.waitpid(pid, 0)
@@ -309,7 +312,7 @@ def run_child(root, sel, name, target):
         counter = {"n": 0}
 
         def point():
-            if counter["n"] == target:
+            if counter["n"] == target and not retry:
                 os._exit(9)
             counter["n"] += 1
 
@@ -339,6 +342,9 @@ def run_child(root, sel, name, target):
                         if counter["n"] == target:       # killed after `cut` bytes were written
                             with real_open(dst, "wb") as fp:
                                 fp.write(data[:cut])
+                            if retry:
+                                counter["n"] = -10 ** 9   # no further faults
+                                raise OSError(28, "No space left on device (injected)")
                             os._exit(9)
                         counter["n"] += 1
                 r = real_copy2(src, dst)
@@ -363,6 +369,17 @@ def run_child(root, sel, name, target):
         bm.shutil = _SH()
         bm.open = _open
         man = bm.BackupManager(root)
+        if retry:
+            try:
+                man.create_backup(sel, backup_name=name, verbose=False)
+                os._exit(0)                               # the target was never reached
+            except OSError:
+                pass
+            try:
+                man.create_backup(sel, backup_name=name, verbose=False)     # same object, second attempt
+                os._exit(7)
+            except Exception:  # noqa
+                os._exit(8)
         man.create_backup(sel, backup_name=name, verbose=False)
         point()                                           # after everything
         os._exit(0)
@@ -410,12 +427,56 @@ def oracle_crash(case):
                     out.bad("completed-backup-not-listed", f"opened={opened}")
                 break
             inside += 1
+            # the user tries again after the interruption: whatever the second attempt answers, a backup that is
+            # listed afterwards holds every file complete
+            if listed is None and opened:
+                try:
+                    again = man.create_backup(sel, backup_name=case["name"], verbose=False)
+                    man2 = BackupManager(root)
+                    listed2 = man2.get_backup(case["name"])
+                except Exception as exc:  # noqa  -- a refusal is acceptable
+                    again, listed2 = None, None
+                if listed2 is not None:
+                    broot = os.path.join(man2.backups_path, case["name"], "backup_root")
+                    for f, b in model.items():
+                        p = os.path.join(broot, f)
+                        if not os.path.exists(p) or read(p) != b:
+                            out.bad("retried-backup-lists-incomplete-file", f"crash point {target}, retry returned "
+                                    f"{again!r}: {f} has {len(read(p) or b'')} of {len(b)} bytes")
+                            break
         finally:
             shutil.rmtree(root, ignore_errors=True)
         target += 1
+    # the same faults as errors inside a copy, followed by a second attempt through the same manager object
+    for target2 in range(0, max(inside, 1), 3):
+        root = write_tree(case["files"])
+        try:
+            sel = [os.path.join(root, f) for f in case["selected"]]
+            rc = run_child(root, sel, case["name"], target2, retry=True)
+            if rc == 3:
+                out.bad("crash-harness-child-failed", f"retry target {target2}")
+                break
+            if rc in (7, 8):
+                try:
+                    man = BackupManager(root)
+                    listed = man.get_backup(case["name"])
+                except Exception:  # noqa
+                    listed = None
+                if listed is not None:
+                    broot = os.path.join(man.backups_path, case["name"], "backup_root")
+                    for f, b in model.items():
+                        p = os.path.join(broot, f)
+                        if not os.path.exists(p) or read(p) != b:
+                            out.bad("retried-backup-lists-incomplete-file", f"error at point {target2}, retry "
+                                    f"{'returned' if rc == 7 else 'raised'}: {f} has {len(read(p) or b'')} of "
+                                    f"{len(b)} bytes; selected {case['selected']}")
+                            break
+                out.classes += ("error-then-retry",)
+        finally:
+            shutil.rmtree(root, ignore_errors=True)
     CRASH_COUNT["points"] += inside
     out.nontrivial = inside >= 3
-    out.classes = (f"crash-points:{min(inside // 10 * 10, 60)}+",)
+    out.classes = tuple(sorted(set(out.classes))) + (f"crash-points:{min(inside // 10 * 10, 60)}+",)
     return out
 
 
